@@ -179,6 +179,23 @@ func init() {
 		}
 		return tuple{newNodeMap().model(doc), iface{}}
 	}
+	intrinsics["golang.org/x/net/html.ParseOptionEnableScripting"] = func(fr *frame, a []value) value {
+		return native{html.ParseOptionEnableScripting(a[0].(bool))}
+	}
+	intrinsics["golang.org/x/net/html.ParseWithOptions"] = func(fr *frame, a []value) value {
+		rd := a[0].(iface).v.(*value)
+		var opts []html.ParseOption
+		if vs, ok := a[1].([]value); ok {
+			for _, o := range vs {
+				opts = append(opts, o.(native).v.(html.ParseOption))
+			}
+		}
+		doc, err := html.ParseWithOptions((*rd).(native).v.(*strings.Reader), opts...)
+		if err != nil {
+			return tuple{(*value)(nil), iface{}}
+		}
+		return tuple{newNodeMap().model(doc), iface{}}
+	}
 	intrinsics["strings.NewReader"] = func(fr *frame, a []value) value {
 		v := value(native{strings.NewReader(conc(a[0]))})
 		return &v
